@@ -139,7 +139,7 @@ func safeParse(text string) parseResult {
 
 var gapText = map[string]string{"": "", "sp": " ", "sp2": "  ", "tab": "\t", "lf": "\n", "crlf": "\r\n", "tc": " # c\n", "cl": "\n# c\n",
 	"docbt": "\n# uses `backticks` and \"quotes\"\n# second line\n",
-	"ec": "\n#\n", "doc1": "\n# d1\n", "doc2": "\n# d1\n# d2\n", "docblank": "\n# d\n\n", "endc": "\n# c"}
+	"ec":    "\n#\n", "doc1": "\n# d1\n", "doc2": "\n# d1\n# d2\n", "docblank": "\n# d\n\n", "endc": "\n# c"}
 
 var punct = map[string]bool{"(": true, ")": true, ",": true, ":": true, "->": true, "?": true, "[": true, "]": true}
 
